@@ -10,7 +10,7 @@
 //! The yield point "strings:before_write" lies INSIDE the write-locked section and is not a scheduling
 //! point.  With the turn token only one thread runs at a time, so read phases never overlap here
 //! (overlapping readers commute: `C10_conc_read_steps_commute`; real overlap is part 2).
-//! Every wait of the scheduler has a 5 s watchdog: a deadlock in the code shows up as fault 1, not as a
+//! Every wait of the scheduler has a 20 s watchdog: a deadlock in the code shows up as fault 1, not as a
 //! hanging harness (after a hang the process-global arena may be wedged: the remaining cases are
 //! reported as fault 5 without being run).
 //!
@@ -42,7 +42,7 @@ use tracing_tunnel::{verif_hooks, CallSiteData, CallSiteKind, TracingEvent, Trac
 
 use crate::{coq::*, out::Sink, rng::Rng, Opts};
 
-const WATCHDOG: Duration = Duration::from_secs(5);
+const WATCHDOG: Duration = Duration::from_secs(20);
 const M_BASE: u64 = 1 << 40;
 const G_BUCKET: u64 = 1 << 41;
 
@@ -742,7 +742,7 @@ pub fn run(o: &Opts) {
          Arena::alloc_metadata; entries of finished threads are skipped), bucketing hash forced per case (k one bucket, m fields mod 2, g one \
          process-wide bucket, s the code's SipHash); observations: executed entries with their phase, per thread and announcement the address \
          held (first-occurrence number), its content, whether register_callsite was called, deltas of the leak counters; every scheduler wait \
-         has a 5 s watchdog. stress case = 8..16 free-running threads released together, random yields / spins at all three yield points, \
+         has a 20 s watchdog. stress case = 8..16 free-running threads released together, random yields / spins at all three yield points, \
          judged by the property only. non-trivial = some description is announced by at least two threads and (schedule cases) the executed \
          entries switch threads at least twice; distinctness is by (hash regime, lists, executed entries)",
         serde_json::json!({
